@@ -1,0 +1,21 @@
+//go:build verif
+
+package entropy
+
+// Add-only verification hook (never compiled into normal builds): exposes
+// copies of the lookup tables the TPAQ predictor depends on, so that the
+// tables of its model can be compared with the real ones.
+
+import internal "github.com/flanglet/kanzi-go/v2/internal"
+
+// VerifTPAQTables returns copies of internal.SQUASH, internal.STRETCH and of
+// the TPAQ state transition, state map and match prediction tables.
+func VerifTPAQTables() (squash, stretch []int, trans0, trans1 []uint8, stateMap, matchPred []int32) {
+	squash = append([]int(nil), internal.SQUASH[:]...)
+	stretch = append([]int(nil), internal.STRETCH[:]...)
+	trans0 = append([]uint8(nil), _TPAQ_STATE_TRANSITIONS[0]...)
+	trans1 = append([]uint8(nil), _TPAQ_STATE_TRANSITIONS[1]...)
+	stateMap = append([]int32(nil), _TPAQ_STATE_MAP...)
+	matchPred = append([]int32(nil), _TPAQ_MATCH_PRED[:]...)
+	return
+}
